@@ -569,6 +569,14 @@ func init() {
 			}
 			// the transport the concurrent requests of one connection share: whole messages only
 			us = append(us, c17StreamWriters(2))
+			// ... and the calls several agents (or one agent's goroutines) make over it at the same
+			// time: each gets the reply to its own request
+			for _, sc := range c14Scenarios() {
+				if strings.HasPrefix(sc.name, "two-callers-one-side") || strings.HasPrefix(sc.name, "three-callers") {
+					sc.name = "socket-transport/" + sc.name
+					us = append(us, c14Unit(sc, 2))
+				}
+			}
 			reps := 150
 			if tier == "thorough" {
 				reps = 2000
